@@ -1,18 +1,26 @@
 """hypercorn/middleware: proxy_fix, dispatcher, http_to_https (C20)."""
-from pyvc.contracts import Callback, cls, fn
+from pyvc.contracts import specfn, Callback, cls, fn
 
 PF = "hypercorn.middleware.proxy_fix:"
 
+# fwd_values(hs, n, name): the comma separated values of the first n header lines named `name`,
+# left to right, each latin-1 decoded and stripped -- the list the property counts hops in
+specfn("fwd_values", ["hs:hdrs", "n:int", "name:bstr"], rec="n", returns="strs",
+       base="[]",
+       step="fwd_values(hs, n - 1, name) + ite(hs[n - 1][0].lower() == name, [v.decode('latin1').strip() for v in hs[n - 1][1].split(b',')], [])")
+
 fn(PF + "_get_trusted_value", params={"name": "bstr", "headers": "hdrs", "trusted_hops": "int"}, returns="opt str", modifies=[], effect="atomic",
    requires=[("trusted.pre.hops", "trusted_hops >= 0")],
-   loops={0: {"locals": {"header_name": "bstr", "header_value": "bstr", "values": "strs"}}},
+   loops={0: {"locals": {"header_name": "bstr", "header_value": "bstr", "values": "strs"},
+              "invariant": [("C20.trusted.scan", "values == fwd_values(headers, _i, name)", "C20")]}},
    ensures=[
        # C20.trusted: zero trusted hops or too few values => nothing is trusted
        ("C20.trusted.zero", "implies(trusted_hops == 0, result is None)", "C20"),
-       ("C20.trusted.too-few", "implies(trusted_hops > 0 and len(local('values')) < trusted_hops, result is None)", "C20"),
-       # ... otherwise exactly the value `trusted_hops` from the RIGHT end (values are collected left
-       # to right in header order, so whatever a client prepends only shifts untrusted positions)
-       ("C20.trusted.from-right", "implies(trusted_hops > 0 and len(local('values')) >= trusted_hops, result is not None and result == local('values')[len(local('values')) - trusted_hops])", "C20"),
+       ("C20.trusted.too-few", "implies(trusted_hops > 0 and len(fwd_values(headers, len(headers), name)) < trusted_hops, result is None)", "C20"),
+       # ... otherwise exactly the value `trusted_hops` from the RIGHT end of all values of all
+       # matching header lines in order (whatever a client prepends only shifts untrusted positions)
+       ("C20.trusted.from-right", "implies(trusted_hops > 0 and len(fwd_values(headers, len(headers), name)) >= trusted_hops, "
+        "result is not None and result == fwd_values(headers, len(headers), name)[len(fwd_values(headers, len(headers), name)) - trusted_hops])", "C20"),
    ],
    props=("C20",))
 
